@@ -1075,3 +1075,46 @@ pub static mut FIXED_EXP: f64 = 0.0;
 pub fn c_exp64_fixed(_x: f64) -> f64 {
     unsafe { FIXED_EXP }
 }
+
+/// ziggurat as a *deterministic function of the consumed word* (for two-run relations on the same stream):
+/// symmetric: a dyadic value in [-8, 8); one-sided: in (0, 16]
+pub fn f_ziggurat_words<R: rand::Rng + ?Sized, P, Z>(
+    rng: &mut R,
+    symmetric: bool,
+    _x_tab: crate::ziggurat_tables::ZigTable,
+    _f_tab: crate::ziggurat_tables::ZigTable,
+    _pdf: P,
+    _zero_case: Z,
+) -> f64
+where
+    P: FnMut(f64) -> f64,
+    Z: FnMut(&mut R, f64) -> f64,
+{
+    let w = rng.next_u64();
+    // 8 significant bits only: keeps products with it cheap
+    let k = (w >> 56) as i64; // 0..255
+    if symmetric { (k - 128) as f64 / 16.0 } else { (k + 1) as f64 / 16.0 }
+}
+/// sqrt as a function: the same argument gives the same (class-contract) value on every call
+static mut SQRT64_MEMO: (u64, u64, bool) = (0, 0, false);
+pub fn c_sqrt64_fn(x: f64) -> f64 {
+    unsafe {
+        if SQRT64_MEMO.2 && SQRT64_MEMO.0 == x.to_bits() {
+            return f64::from_bits(SQRT64_MEMO.1);
+        }
+    }
+    let r = c_sqrt64_class(x);
+    unsafe { SQRT64_MEMO = (x.to_bits(), r.to_bits(), true); }
+    r
+}
+static mut SQRT32_MEMO: (u32, u32, bool) = (0, 0, false);
+pub fn c_sqrt32_fn(x: f32) -> f32 {
+    unsafe {
+        if SQRT32_MEMO.2 && SQRT32_MEMO.0 == x.to_bits() {
+            return f32::from_bits(SQRT32_MEMO.1);
+        }
+    }
+    let r = c_sqrt32_class(x);
+    unsafe { SQRT32_MEMO = (x.to_bits(), r.to_bits(), true); }
+    r
+}
